@@ -108,9 +108,46 @@ impl Cmp {
     }
 }
 
+/// arithmetic over numeric operands (variables or numeric tokens)
+#[derive(Clone, Debug, PartialEq, Eq, Hash, PartialOrd, Ord)]
+pub enum Arith {
+    Operand(T),
+    Add(Box<Arith>, Box<Arith>),
+    Sub(Box<Arith>, Box<Arith>),
+    Mul(Box<Arith>, Box<Arith>),
+    Div(Box<Arith>, Box<Arith>),
+}
+
+impl Arith {
+    pub fn vars(&self, out: &mut BTreeSet<String>) {
+        match self {
+            Arith::Operand(T::Var(n)) => {
+                out.insert(n.clone());
+            }
+            Arith::Operand(_) => {}
+            Arith::Add(a, b) | Arith::Sub(a, b) | Arith::Mul(a, b) | Arith::Div(a, b) => {
+                a.vars(out);
+                b.vars(out);
+            }
+        }
+    }
+    /// fully parenthesised text
+    pub fn text(&self) -> String {
+        match self {
+            Arith::Operand(t) => print_term(t),
+            Arith::Add(a, b) => format!("({} + {})", a.text(), b.text()),
+            Arith::Sub(a, b) => format!("({} - {})", a.text(), b.text()),
+            Arith::Mul(a, b) => format!("({} * {})", a.text(), b.text()),
+            Arith::Div(a, b) => format!("({} / {})", a.text(), b.text()),
+        }
+    }
+}
+
 #[derive(Clone, Debug, PartialEq, Eq, Hash, PartialOrd, Ord)]
 pub enum Expr {
     Cmp(T, Cmp, T),
+    /// comparison of two arithmetic expressions (at least one of them compound)
+    ArithCmp(Arith, Cmp, Arith),
     And(Box<Expr>, Box<Expr>),
     Or(Box<Expr>, Box<Expr>),
     Not(Box<Expr>),
@@ -126,6 +163,10 @@ impl Expr {
                 if let T::Var(n) = b {
                     out.insert(n.clone());
                 }
+            }
+            Expr::ArithCmp(a, _, b) => {
+                a.vars(out);
+                b.vars(out);
             }
             Expr::And(a, b) | Expr::Or(a, b) => {
                 a.vars(out);
@@ -555,6 +596,19 @@ fn print_expr(p: &mut P, e: &Expr, top: bool) {
             p.tok(&print_term(a));
             p.tok(op.sym());
             p.tok(&print_term(b));
+        }
+        Expr::ArithCmp(a, op, b) => {
+            // arithmetic is printed fully parenthesised; tokens separated so that every layout can
+            // vary the whitespace between them
+            for part in [a.text(), op.sym().to_string(), b.text()] {
+                for tok in part.replace('(', " ( ").replace(')', " ) ").split_whitespace() {
+                    if tok == "(" || tok == ")" {
+                        p.punct(tok);
+                    } else {
+                        p.tok(tok);
+                    }
+                }
+            }
         }
         Expr::And(a, b) => {
             if !top {
